@@ -14,6 +14,7 @@ inductive EPart where
 inductive ESel where
   | none
   | bad
+  | dyn      -- the query comes from a path or group argument: decided by the data, not modelled (known finding C07/21)
   | path (p : EPath)
   | logic (l : ELogic)
 inductive ELogic where
@@ -46,6 +47,7 @@ def elabPart (T : Tables) : Nat → PathPart → EPart
   | fuel, .func _ name params _ =>
     let sel : ESel :=
       if name != str "Select" then .none else
+      if params.any (fun p => match p with | .path _ => true | .logic _ => true | _ => false) then .dyn else
       match fuel, params with
       | fuel'+1, [.str q] =>
         match (parse T q).1 with
@@ -181,6 +183,7 @@ def sSel (sel : ESel) (recv : GoVal) : Out :=
   | .path p => selectOn recv (fun elem => sPath p elem elem)
   | .logic l => selectOn recv (fun elem => sLogic l elem elem)
   | .bad => .err
+  | .dyn => .unmodelled
   | .none => .unmodelled
 termination_by structural sel
 
